@@ -18,28 +18,12 @@ UNINIT = 'uninit'
 EPS = Fraction(1, 2 ** 52)
 
 
-# un-inlined cgmath call -> local shim whose printed body is that cgmath function (harness/src/shims.rs)
-SHIMS = {
-    '<cgmath::Quaternion<R> as cgmath::Rotation>::rotate_vector': 'shim_quat_rotate_vector',
-    '<cgmath::Basis3<R> as cgmath::Rotation>::rotate_vector': 'shim_basis3_rotate_vector',
-    '<cgmath::Basis2<R> as cgmath::Rotation>::rotate_vector': 'shim_basis2_rotate_vector',
-    '<cgmath::Quaternion<R> as std::ops::Mul<cgmath::Vector3<R>>>::mul': 'shim_quat_mul_v3',
-    '<cgmath::Quaternion<R> as std::ops::Mul>::mul': 'shim_quat_mul_quat',
-    '<cgmath::Matrix3<R> as std::ops::Mul<cgmath::Vector3<R>>>::mul': 'shim_m3_mul_v3',
-    '<cgmath::Matrix3<R> as std::ops::Mul>::mul': 'shim_m3_mul_m3',
-    '<cgmath::Matrix4<R> as std::ops::Mul>::mul': 'shim_m4_mul_m4',
-    '<cgmath::Matrix4<R> as std::ops::Mul<cgmath::Vector4<R>>>::mul': 'shim_m4_mul_v4',
-    '<cgmath::Quaternion<R> as cgmath::Rotation>::invert': 'shim_quat_invert',
-    '<cgmath::Basis3<R> as cgmath::Rotation>::invert': 'shim_basis3_invert',
-    '<cgmath::Basis2<R> as cgmath::Rotation>::invert': 'shim_basis2_invert',
-    '<cgmath::Matrix3<R> as cgmath::SquareMatrix>::invert': 'shim_m3_invert',
-    '<cgmath::Matrix4<R> as cgmath::SquareMatrix>::invert': 'shim_m4_invert',
-    '<cgmath::Matrix2<R> as cgmath::SquareMatrix>::invert': 'shim_m2_invert',
-    '<cgmath::Matrix3<R> as From<cgmath::Quaternion<R>>>::from': 'shim_m3_from_quat',
-    '<cgmath::Quaternion<R> as From<cgmath::Matrix3<R>>>::from': 'shim_quat_from_m3',
-    '<cgmath::Vector3<R> as cgmath::InnerSpace>::normalize': 'shim_v3_normalize',
-    '<cgmath::Quaternion<R> as cgmath::InnerSpace>::normalize': 'shim_quat_normalize',
-}
+def shim_name(fname):
+    """un-inlined cgmath call -> local shim whose printed body is that cgmath function (tools/gen_shims.py)"""
+    m = re.match(r'^<(.*) as Into<(.*)>>::into$', fname)
+    if m:
+        fname = '<%s as From<%s>>::from' % (m.group(2), m.group(1))
+    return 'shim_' + re.sub(r'[^A-Za-z0-9]+', '_', fname).strip('_')
 
 
 class Ptr:
@@ -1159,9 +1143,11 @@ class Machine:
                 callee = s.fns.get(fname)
                 if callee is None:
                     callee = s.fns.get(fname.split('::<')[0])
-                if (callee is None or not callee.blocks) and fname in SHIMS:
-                    callee = s.fns.get('shims::' + SHIMS[fname]) or s.fns.get(SHIMS[fname])
-                    s.shims_used.add(fname)
+                if callee is None or not callee.blocks:
+                    sn = shim_name(fname)
+                    callee = s.fns.get('shims::' + sn) or s.fns.get(sn)
+                    if callee is not None:
+                        s.shims_used.add(fname)
                 if callee is None or not callee.blocks:
                     raise MirError('call to function without body: ' + fname)
                 fid = p.nfid
